@@ -53,6 +53,9 @@ where
     fn param_h(h: i64) -> Self;
     fn param_t(t: i64) -> Self;
     fn to_ref(&self) -> RP<Self::B>;
+    /// the library's own evaluation of a formal-parameter entry at (h, t) (None: no formal parameter,
+    /// or a coefficient type for which the library offers no `eval`: Ratio, FF)
+    fn lib_eval(&self, _h: i64, _t: i64) -> Option<Self::B> { None }
 }
 
 fn zb(x: i64) -> Z { Z(BigInt::from(x)) }
@@ -95,6 +98,7 @@ impl CRing for Poly<'H', i64> {
     const FORMAL: (bool, bool) = (true, false);
     fn param_h(_: i64) -> Self { Self::variable() }
     fn param_t(t: i64) -> Self { Self::from_const(t) }
+    fn lib_eval(&self, h: i64, _t: i64) -> Option<Z> { Some(zb(self.eval(&h))) }
     fn to_ref(&self) -> RP<Z> {
         self.iter().fold(RP::zero(), |s, (x, c)| s.add(&RP::mono(x.deg() as u32, 0, zb(*c))))
     }
@@ -105,6 +109,7 @@ impl CRing for Poly<'T', i64> {
     const FORMAL: (bool, bool) = (false, true);
     fn param_h(h: i64) -> Self { Self::from_const(h) }
     fn param_t(_: i64) -> Self { Self::variable() }
+    fn lib_eval(&self, _h: i64, t: i64) -> Option<Z> { Some(zb(self.eval(&t))) }
     fn to_ref(&self) -> RP<Z> {
         self.iter().fold(RP::zero(), |s, (x, c)| s.add(&RP::mono(0, x.deg() as u32, zb(*c))))
     }
@@ -115,6 +120,7 @@ impl CRing for Poly2<'H', 'T', i64> {
     const FORMAL: (bool, bool) = (true, true);
     fn param_h(_: i64) -> Self { Self::variable(0) }
     fn param_t(_: i64) -> Self { Self::variable(1) }
+    fn lib_eval(&self, h: i64, t: i64) -> Option<Z> { Some(zb(self.eval(&h, &t))) }
     fn to_ref(&self) -> RP<Z> {
         self.iter().fold(RP::zero(), |s, (x, c)| { let (a, b) = x.deg(); s.add(&RP::mono(a as u32, b as u32, zb(*c))) })
     }
@@ -255,16 +261,28 @@ where
     let reduced = case["reduced"].as_bool().unwrap();
     let pd2 = pd.clone();
     let trunc: Option<(i64, i64)> = case.get("trunc").and_then(|v| v.as_array()).map(|a| (a[0].as_i64().unwrap(), a[1].as_i64().unwrap()));
+    let mut eval_points: Vec<(i64, i64)> = case["points"].as_array().map(|a| a.iter().map(|p| (p[0].as_i64().unwrap(), p[1].as_i64().unwrap())).collect()).unwrap_or_default();
+    eval_points.extend([(0, 0), (1, 0), (0, 1), (2, 0), (0, -3), (-1, 0), (2, 3), (-1, 1)]);
     let res = ex.exec(None, rt::fs::Disk::default(), move || {
         let l = link_of(&pd2);
         let c = KhComplex::<R>::new(&l, &R::param_h(h), &R::param_t(t), reduced);
         let full = snapshot(&c);
+        // the library's own evaluation of every entry at the sampled points and on a fixed grid
+        // (axes included): compared entry by entry with the reference evaluation afterwards
+        let lib_evals: Vec<((i64, i64), Vec<DM<R::B>>)> = if R::param_h(0).lib_eval(0, 0).is_some() {
+            use yui_matrix::MatTrait;
+            eval_points.iter().map(|&(h0, t0)| ((h0, t0), full.degrees.iter().map(|&i| {
+                let m = c.d_matrix(i as isize);
+                let (r, cc) = m.shape();
+                DM::from_entries(r, cc, m.iter().map(|(a, b, v)| (a, b, v.lib_eval(h0, t0).unwrap())))
+            }).collect())).collect()
+        } else { vec![] };
         let part = trunc.and_then(|(a, b)| {
             let (lo0, hi0) = (*full.degrees.first()? as isize, *full.degrees.last()? as isize);
             let (lo, hi) = (lo0 + a as isize, hi0 - b as isize);
             (lo <= hi).then(|| (lo as i32, hi as i32, snapshot(&c.truncated(lo..=hi))))
         });
-        (full, part)
+        (full, part, lib_evals)
     });
     let st = ex.stats.last().cloned().unwrap_or_default();
     rep.nontrivial = st.par_calls > 0 && st.hash_draws > 0;
@@ -283,7 +301,18 @@ where
         }
         Ok(s) => s,
     };
-    let (s, part) = s;
+    let (s, part, lib_evals) = s;
+    for ((h0, t0), ds) in &lib_evals {
+        let (hv, tv) = (<R::B as RefRing>::from_i64(*h0), <R::B as RefRing>::from_i64(*t0));
+        for (k, m) in ds.iter().enumerate() {
+            let want = s.d[k].map(|p| p.eval(&hv, &tv));
+            if *m != want {
+                rep.violation = Some(Violation::new("library-evaluation-wrong", format!("differential out of degree {} over {} evaluated by the library at (h,t)=({h0},{t0}) differs from the evaluation of its entries", s.degrees[k], R::NAME)));
+                return rep;
+            }
+        }
+        rep.counters.insert("library_evaluations_compared".into(), rep.counters.get("library_evaluations_compared").copied().unwrap_or(0) + 1);
+    }
     // a truncated complex consists of exactly the requested degrees of the full one, with the same
     // generators and the same differential between kept degrees
     if let Some((lo, hi, p)) = &part {
